@@ -253,7 +253,7 @@ def run(ctx):
     n_cfg = 110 if quick else 900
     n_sched = 24 if quick else 60
     max_states = 60000 if quick else 400000
-    t_budget = 55 if quick else 580
+    t_budget = 55 if quick else 400
     t_start = time.time()
     rng = ctx.rng
     for c in range(n_cfg):
@@ -331,7 +331,7 @@ def run(ctx):
     cov["tworun_cases"] = 0
     t_two = time.time()
     for c in range(10 if quick else 80):
-        if time.time() - t_two > (12 if quick else 90) or too_many_leaks(ctx):
+        if time.time() - t_two > (12 if quick else 60) or too_many_leaks(ctx):
             break
         cfg1, cfg2 = hc.gen_two_runs(rng)
         for s2 in range(4 if quick else 10):
@@ -348,12 +348,12 @@ def run(ctx):
     cov["bcast_blocked_runs"] = 0
     t_bc = time.time()
     for c in range(n_bc):
-        if time.time() - t_bc > (20 if quick else 150) or too_many_leaks(ctx):
+        if time.time() - t_bc > (20 if quick else 100) or too_many_leaks(ctx):
             ctx.notes.append(f"broadcast time budget reached after {c} configurations")
             break
         shape, cfg = hc.gen_bcast(rng)
         for s in range(n_bs):
-            if time.time() - t_bc > (30 if quick else 170) or too_many_leaks(ctx):
+            if time.time() - t_bc > (30 if quick else 120) or too_many_leaks(ctx):
                 break
             if rng.random() < 0.6:
                 pp = rng.choice([0.03, 0.1, 0.3, 0.7])
